@@ -501,6 +501,54 @@ theorem history_then_clearAll (t : Nat) (ops : List Op) :
   have := hc.count_eq x
   simp [List.count_append, List.count_cons] at this ⊢; omega
 
+/-! ### destruction of the global cache -/
+
+theorem clearAll_blocks (s : State) : (clearAll s).1.blocks = [] := by
+  simp only [clearAll, State.blocks]
+  induction s.classes with
+  | nil => simp
+  | cons c cs ih => simp [Class.blocks] at ih ⊢
+
+theorem destroy_liveIds (s : State) : (destroy s).1.liveIds = s.blocks.flatMap Block.ids := by
+  unfold destroy
+  cases h : s.table <;> simp [State.liveIds, State.blocks, h]
+
+/-- **Destroyed ⇒ everything returned.** Whatever state the global string cache is in (buffers still
+    handed out, buffers in free lists, uncached buffers), after `~GlobalSimpleStringCache()` it holds
+    no underlying allocation at all.  Depends on the regenerated fact that the destructor calls
+    `clearAllIncludingCurrentlyUsedMemory` (a destructor that only calls `clearCache` breaks this
+    obligation). -/
+theorem globalDestroy_returns_everything (s : State) : (globalDestroy s).1.liveIds = [] := by
+  have hall : Gen.Cache.globalDtorClearsAll = true := by decide
+  unfold globalDestroy
+  simp only [hall, if_true]
+  rw [destroy_liveIds, clearAll_blocks]; rfl
+
+/-- and what it gives back is exactly what it held (nothing twice, nothing foreign) -/
+theorem globalDestroy_conservation (s : State) :
+    (freed (globalDestroy s).2).Perm s.liveIds := by
+  have hall : Gen.Cache.globalDtorClearsAll = true := by decide
+  unfold globalDestroy
+  simp only [hall, if_true]
+  have hc := clearAll_conservation s
+  have h1 := clearAll_returns_everything s
+  have ha : allocd (clearAll s).2 = [] := allocd_of_not_alloc s .clearAll (by intros; simp)
+  rw [h1, ha] at hc
+  simp only [List.append_nil] at hc
+  have htab : (clearAll s).1.table = s.table := rfl
+  unfold destroy
+  cases ht : s.table with
+  | none =>
+    rw [htab, ht]; simp only [List.append_nil]
+    rw [ht] at hc; simpa using hc
+  | some t =>
+    rw [htab, ht]; simp only
+    rw [ht] at hc
+    rw [freed_append]
+    apply perm_of_count; intro x
+    have := hc.count_eq x
+    simp [List.count_append, List.count_cons, freed] at this ⊢; omega
+
 /-! ### non-vacuity: the hypotheses are met by concrete, non-trivial states -/
 
 /-- a state reached by a real history: two buffers of class 32 (one released), one uncached -/
